@@ -63,6 +63,8 @@ func init() {
 			// processes in which the application's no-color switch is on, and processes started with NO_COLOR set
 			js = append(js, chunk("main", "prod", pick(tier, 2000, 50000), pick(tier, 2000, 25000), Job{Args: []string{"-x", "nocolormode=1"}, Timeout: 30 * time.Minute})...)
 			js = append(js, chunk("main", "prod", pick(tier, 2000, 50000), pick(tier, 2000, 25000), Job{Env: []string{"NO_COLOR=1"}, Timeout: 30 * time.Minute})...)
+			// a process whose working directory was removed under it
+			js = append(js, chunk("main", "prod", pick(tier, 2000, 50000), pick(tier, 2000, 25000), Job{Args: []string{"-x", "cwdgone=1"}, Timeout: 30 * time.Minute})...)
 			return js
 		},
 	})
